@@ -124,6 +124,71 @@ func batchLabels(b Batch, sc *SegCase) {
 	}
 }
 
+// Prelude optionally runs a few legitimate uses of the library that touch its
+// shared state (package-level singletons, pools) before the case is checked:
+// none of them may change what any segment answers.
+func Prelude(t *rapid.T, c *SegCase, sc *Scenario, label string) {
+	if rapid.IntRange(0, 3).Draw(t, label+":prelude") != 0 {
+		return
+	}
+	n := rapid.IntRange(1, 2).Draw(t, label+":nPrelude")
+	for i := 0; i < n; i++ {
+		kind := rapid.IntRange(0, 5).Draw(t, label+":preludeKind")
+		_ = safely("prelude", func() error {
+			switch kind {
+			case 0: // DocsMatchingTerms over present and absent terms
+				var list []segment.Term
+				for _, f := range c.Exp.Fields {
+					for _, tm := range sortedKeys(c.Exp.Post[f]) {
+						list = append(list, ftTerm{f, tm})
+					}
+				}
+				list = append(list, ftTerm{UnknownField, "x"}, ftTerm{"a", "absent"})
+				_, err := c.Seg.DocsMatchingTerms(list)
+				return err
+			case 1: // the prealloc reuse idiom over hits and misses, stopping early
+				var pl segment.PostingsList
+				var it segment.PostingsIterator
+				for _, f := range c.Exp.Fields {
+					d, err := c.Seg.Dictionary(f)
+					if err != nil {
+						return err
+					}
+					for _, tm := range append(sortedKeys(c.Exp.Post[f]), "absent") {
+						if pl, err = d.PostingsList([]byte(tm), nil, pl); err != nil {
+							return err
+						}
+						if it, err = pl.Iterator(true, true, true, it); err != nil {
+							return err
+						}
+						if _, err = it.Next(); err != nil {
+							return err
+						}
+					}
+				}
+			case 2: // a failed persist
+				_, _ = c.Seg.WriteTo(&failAfter{k: rapid.IntRange(0, 200).Draw(t, label+":preludeFailAt")}, nil)
+			case 3: // a merge cancelled when the first bytes reach the writer
+				return cancelledMerge(c.Seg)
+			case 4: // a build of an unrelated batch
+				_, err := Build(GenBatch(t, sc, 4), sc.Norm, 1025)
+				return err
+			default: // a stored visit stopped early + a doc-value visit
+				if c.Exp.N > 0 {
+					_ = c.Seg.VisitStoredFields(uint64(c.Exp.N-1), func(string, []byte) bool { return false })
+					r, err := c.Seg.DocumentValueReader(c.Exp.Fields)
+					if err != nil {
+						return err
+					}
+					return r.VisitDocumentValues(0, func(string, []byte) {})
+				}
+			}
+			return nil
+		})
+		c.label("prelude")
+	}
+}
+
 // GenLeaf draws and builds one batch.
 func GenLeaf(t *rapid.T, ctx *Ctx, sc *Scenario, cfg CaseCfg, label string) (*SegCase, error) {
 	var b Batch
@@ -189,6 +254,9 @@ func GenLeaf(t *rapid.T, ctx *Ctx, sc *Scenario, cfg CaseCfg, label string) (*Se
 		if err := c.reload(ctx, hold); err != nil {
 			return nil, err
 		}
+	}
+	if cfg.Family != FamWide && cfg.Family != FamHuge {
+		Prelude(t, c, sc, label)
 	}
 	return c, nil
 }
@@ -363,6 +431,9 @@ func GenMerge(t *rapid.T, ctx *Ctx, sc *Scenario, cfg CaseCfg, depth int, label 
 		return nil, err
 	}
 	mergeLabels(c, ins, drops)
+	if cfg.Family != FamWide && cfg.Family != FamHuge {
+		Prelude(t, c, sc, label)
+	}
 	return c, nil
 }
 
